@@ -261,7 +261,9 @@ func HarnessC03Validating() {
 		} else {
 			verifrt.Assert("C03.validating-no-block-with-error", blk == nil)
 			verifrt.Assert("C03.validating-intact-block-served", !match)
-			if r.kind == 0 {
+			if r.kind == 0 && len(r.orig) <= verifrt.Param("UFSANITY", 2) {
+				// restates "intact-block-served" through the function symbol (needs congruence over the
+				// concatenated input): asserted at the small lengths only, it says nothing new about the code
 				verifrt.Assert("C03.validating-intact-original-served", !bytes.Equal(back.data, r.orig))
 			}
 			if r.kind != 3 {
